@@ -227,6 +227,17 @@ def run(chk):
         else:
             src, inputs = progs.gen_program(rng, size=rng.choice([3, 5, 8]), depth=rng.choice([1, 2, 3]))
         tasks.append((src, inputs, i % 3, chk.n(3, 10)))
+    # blocks with an empty body whose opening / closing statement carries code of its own (the literal-change oracle
+    # then ties that code to the line it is written on), at every level
+    for src in ['z = 5\nDO\nLOOP UNTIL 4 \\ z\nPRINT 1\n', 'x = 1\nDO\nLOOP WHILE x > 7\n', 'x = 9\nWHILE x < 5\nWEND\n',
+                'x = 9\nDO WHILE x < 5\nLOOP\nDO UNTIL x > 3\nLOOP\n', 'FOR i = 3 TO 1\nNEXT\nFOR j = 1 TO 4 STEP 5\nNEXT j\n',
+                'x = 2\nIF x > 4 THEN\nELSEIF x > 6 THEN\nELSE\nEND IF\n',
+                'x = 1\nIF x THEN\n  x = 2\nEND IF\nDO\nLOOP UNTIL x < 8\n',
+                'x = 1\nIF x THEN\nELSE\nEND IF\nDO\nLOOP UNTIL x < 8\nWHILE x > 6\nWEND\n',
+                'SELECT CASE 5\nCASE 4\nCASE 6 TO 7\nCASE ELSE\nEND SELECT\n',
+                'CALL p\nSUB p\n  DO\n  LOOP UNTIL 3 > q\n  FOR k = 4 TO 3\n  NEXT\nEND SUB\n']:
+        for o in (0, 1, 2):
+            tasks.append((src, [], o, 10))
     for k in chk.known:
         if k.get('example'):
             tasks.append((k['example'] + '\n', [], 2, 0))
